@@ -171,4 +171,75 @@ theorem history_transparent_univariate_prime {p : Nat} (hp : p.Prime) (h32 : p -
       = runOps env (.prime p) s ops :=
   (history_transparent_univariate (envAgreeU_prime hp h32 tabs env henv hring) _ ops hops hs).1
 
+/-! ### non-vacuity: GF(7), base ring `F_7[X]` and quotient ring `F_7[X]/(X² + 1)` -/
+
+/-- untabled environment: all field objects GF(7); ring 1 is the quotient ring modulo `X² + 1` -/
+def env7 : Env Nat :=
+  { env5 with fld := fun _ => primeOps 7,
+              uring := fun i => { F := primeOps 7, varName := "X",
+                                  modulus := if i = 1 then some [1, 0, 1] else none } }
+
+/-- tabled environment: every field object has both tables -/
+def env7T : Env Nat :=
+  { env7 with fld := fun _ => primeOpsT 7 true true,
+              uring := fun i => { env7.uring i with F := primeOpsT 7 true true } }
+
+/-- a history with univariate operations (constructors without string decoding, so that the
+    kernel can evaluate it): builds `3X² + 4X + 1` and `X³ + 1` with the coefficient setters,
+    requests tables, then `Times Minus Pow QuoRem Gcd Eval Scale Normalize DecrementCoef
+    EmbedIn(reduce) Interpolate Mult Equal` and the observers -/
+def ops7 : List Op := [.eCtor 0 0 "gen" "", .eCtor 1 0 "one" "", .eBin 2 "plus" 0 1,
+  .uCtor 0 0 "zero" "", .uSetCoef "set" 0 2 0, .uSetCoef "inc" 0 1 2, .uSetCoef "set" 0 0 1,
+  .uCtor 1 0 "one" "", .uSetCoef "set" 1 3 1,
+  .tables 0 true true none, .uBin 2 "times" 0 1, .uBin 3 "minus" 2 0, .uPow 4 0 5,
+  .uQuoRem [5, 6] 4 [1], .uGcd 7 [2, 1], .uEval 3 4 0, .uScale 8 3 2, .uUn 9 "normalize" 8,
+  .uSetCoef "dec" 9 4 0, .uEmbed 9 1 true, .uInterp 10 0 [0, 1] [1, 2], .uIn "mult" 10 0,
+  .uEq 9 4, .uObs 9, .uObs 10]
+
+/-- the hypotheses of T23 hold for `env7`, `ops7` and the empty store -/
+example : (∀ i, env7.fld i = primeOps 7) ∧
+    (∀ i, (env7.uring i).F = primeOps 7 ∧ ∀ m, (env7.uring i).modulus = some m → ∀ c ∈ m, c < 7) ∧
+    (∀ op ∈ ops7, elemOrUOp op = true) ∧ StoreOKU (fun _ a => a < 7) ({} : St Nat) := by
+  refine ⟨fun _ => rfl, fun i => ⟨rfl, fun m hm => ?_⟩, by decide, fun k r hk => (by cases hk),
+    fun k r hk => (by cases hk)⟩
+  simp only [env7] at hm
+  split at hm
+  · cases hm; decide
+  · cases hm
+
+/-- T23 applied (`env7T` is, by definition, the tabled environment of T23) -/
+example : runOps env7T (.prime 7) {} ops7 = runOps env7 (.prime 7) {} ops7 :=
+  history_transparent_univariate_prime (by norm_num) (by norm_num) (fun _ => (true, true)) env7
+    (fun _ => rfl) (fun i => ⟨rfl, fun m hm => by
+      simp only [env7] at hm
+      split at hm
+      · cases hm; decide
+      · cases hm⟩) ops7 (by decide) ⟨fun k r hk => (by cases hk), fun k r hk => (by cases hk)⟩
+
+/-- … and evaluated: both environments, explicit replies -/
+example : (runOps env7T (.prime 7) {} ops7).2 = (runOps env7 (.prime 7) {} ops7).2 ∧
+    (runOps env7 (.prime 7) {} ops7).2 =
+  ["ok 0#3", "ok 0#1", "ok 0#4", "ok 0#0", "recv 0#0/0/3", "recv 0#0/4/3", "recv 0#1/4/3", "ok 0#1",
+   "recv 0#1/0/0/1", "ok", "ok 0#1/4/3/1/4/3", "ok 0#0/0/0/1/4/3", "ok 0#1/6/0/5/3/1/2/3/0/3/5",
+   "ok 6/5/1/6/5/0/3/5 2/1/6", "ok 0#1/0/0/1", "ok 0#3", "ok 0#0/0/0/4/2/5", "ok 0#0/0/0/5/6/1",
+   "recv 0#0/0/0/5/3/1", "ok 1#3/3", "ok 0#2/2", "recv 0#2/3/0/6", "eq false",
+   "obs ld=1 lc=3 degs=1,0 n=2 z=false o=false m=false s=3X + 3",
+   "obs ld=3 lc=6 degs=3,1,0 n=3 z=false o=false m=false s=6X^3 + 3X + 2"] := by
+  decide +kernel
+
+/-- value level: `(3X² + 4X + 1)·(X³ + 1)`, its remainder modulo `X² + 1` and a gcd, both records -/
+example :
+    UPoly.mulNoReduce (primeOpsT 7 true true) [1, 4, 3] [1, 0, 0, 1] = [1, 4, 3, 1, 4, 3] ∧
+    UPoly.mulNoReduce (primeOps 7) [1, 4, 3] [1, 0, 0, 1] = [1, 4, 3, 1, 4, 3] ∧
+    UPoly.reduce (primeOpsT 7 true true) [1, 0, 1] [1, 4, 3, 1, 4, 3] = some [2, 6] ∧
+    UPoly.reduce (primeOps 7) [1, 0, 1] [1, 4, 3, 1, 4, 3] = some [2, 6] ∧
+    UPoly.gcd (primeOpsT 7 true true) [1, 4, 3, 1, 4, 3] [[1, 0, 0, 1]] = some [1, 0, 0, 1] ∧
+    UPoly.gcd (primeOps 7) [1, 4, 3, 1, 4, 3] [[1, 0, 0, 1]] = some [1, 0, 0, 1] := by
+  decide +kernel
+
+/-- validity of the coefficients matters: an unreduced coefficient `9` (never produced by the
+    constructors covered) is outside the addition table -/
+example : UPoly.add (primeOpsT 7 true true) [9] [1] ≠ UPoly.add (primeOps 7) [9] [1] := by
+  decide +kernel
+
 end Algobra.C18Tables
